@@ -165,6 +165,8 @@ pub enum Beh {
     PanicLate(u16),
     /// block inside `run` until `.0` systems are inside `run` (rendezvous group of the dispatch)
     Rendezvous(u16),
+    /// the FIRST call of the system's setup hook panics (the caller recovers and sets up again)
+    PanicSetupOnce,
 }
 
 pub struct Rendezvous {
@@ -397,7 +399,14 @@ impl<'a> DynamicSystemData<'a> for HData<'a> {
     /// accessor (`System::accessor`, not a default-constructed one) to this function, which is what gets counted.
     fn setup(acc: &HAcc, _: &mut World) {
         if acc.id != usize::MAX {
-            acc.ctx.setups.lock().unwrap()[acc.id] += 1;
+            let n = {
+                let mut s = acc.ctx.setups.lock().unwrap();
+                s[acc.id] += 1;
+                s[acc.id]
+            };
+            if n == 1 && matches!(acc.ctx.beh_of(acc.id), Beh::PanicSetupOnce) {
+                inject_panic(&acc.ctx, "setup", acc.id);
+            }
         }
     }
 
